@@ -305,7 +305,9 @@ def pushGrow (E : Env) (gs : GS) : Except Panic Unit × GS :=
      | .ok nc => grow E nc (gs.A E) gs)
   else (.ok (), gs)
 
-theorem push_pre_run (E : Env) (gs : GS) :
+/-- (for a handle with `len ≤ capacity` — every well-formed one — so that the statement does not depend on whether the
+    code tests "full" as `len == capacity` or as `len >= capacity`) -/
+theorem push_pre_run (E : Env) (gs : GS) (hlc : gs.L ≤ gs.C) :
     push_pre E gs =
       match pushGrow E gs with
       | (.error p, g1) => (.error p, g1)
@@ -315,9 +317,9 @@ theorem push_pre_run (E : Env) (gs : GS) :
          | (.error p, g2) => (.error p, g2)) := by
   unfold push_pre pushGrow
   simp only [len_run, capacity_run, alignment_run, GM.bind_run, GM.ite_run, beq_iff_eq, GM.liftE_run,
-    GM.pure_run]
+    GM.pure_run, decide_eq_true_eq]
   by_cases hfull : gs.L = gs.C
-  · simp only [hfull, if_true]
+  · simp only [hfull, ge_iff_le, Nat.le_refl, if_true]
     cases hn : next_capacity E gs.C with
     | error p => rfl
     | ok nc =>
@@ -330,7 +332,8 @@ theorem push_pre_run (E : Env) (gs : GS) :
           simp only [len_run]
           cases data E g1 with
           | mk r2 g2 => cases r2 <;> rfl
-  · simp only [hfull, if_false, len_run]
+  · have hlt : ¬ gs.L ≥ gs.C := by omega
+    simp only [hfull, hlt, if_false, len_run]
     cases data E gs with
     | mk r2 g2 => cases r2 <;> rfl
 
@@ -558,7 +561,7 @@ theorem push_spec (X : Ctx) (s : St) (es : List Elem) (e : Elem) (h : Abs X s.v 
       obtain ⟨_, _, _, _, hlc, _, _⟩ := h.alloc hd
       simp [GS.L, GS.C, hsOf, hd, hlc]
   have hpg := pushGrow_cases X.env (hsOf s.v s.sys.allocIdx) rfl hlc
-  have hrun := push_pre_run X.env (hsOf s.v s.sys.allocIdx)
+  have hrun := push_pre_run X.env (hsOf s.v s.sys.allocIdx) hlc
   unfold Vec.push
   simp only [VM.bind_run]
   generalize hout : pushGrow X.env (hsOf s.v s.sys.allocIdx) = out at hpg hrun
